@@ -10,19 +10,23 @@ From Coq Require Import Permutation.
    Optional / list / dict value / tuple containers at any depth: a conforming value (member instances and
    scalars at the leaves) dumps and loads back to ITSELF — same class (the member record carries the class
    identity), same field values, nothing captured by CatchAll, no unknown-key error.
-   `tag_key_tolerated_v0` (inside leaf_v0) is the region hypothesis forced by finding F23. *)
+   `tag_key_tolerated_v0` (inside leaf_v0) is the region hypothesis forced by finding F23; `dump_tag c built m =
+   Some t` next to `eff_tag c m = Some t` the one forced by finding F62 (member-level auto_assign_tags).
+   Tag assignment covers the full product {explicit tag, none} x {member-level auto flag} x {container auto flag}.
+   `pre` / `built` are the only traces earlier uses leave on a member (see TagUnion.v): the theorem holds for
+   every value of both, i.e. after ANY earlier dumps / loads of the members or the container. *)
 Theorem C13_dispatch_v0 :
-  forall c pre args, tags_injective c args ->
-  forall p v, shaped c (leaf_v0 c pre args) p v ->
-              load_pos (load_union_v0 c pre args) p (dump_lv c v) = Ok v.
+  forall c pre built args, tags_injective c args ->
+  forall p v, shaped c built (leaf_v0 c pre built args) p v ->
+              load_pos (load_union_v0 c pre args) p (dump_lv c built v) = Ok v.
 Proof. exact dispatch_v0. Qed.
 Print Assumptions C13_dispatch_v0.
 
 (* v1: same statement; additionally the tagged members must have distinct __name__s (finding F9). *)
 Theorem C13_dispatch_v1 :
-  forall coerce c args, tags_injective c args -> names_injective c args ->
-  forall p v, shaped c (leaf_v1 c args) p v ->
-              load_pos (load_union_v1 coerce c args) p (dump_lv c v) = Ok v.
+  forall coerce c built args, tags_injective c args -> names_injective c args ->
+  forall p v, shaped c built (leaf_v1 c built args) p v ->
+              load_pos (load_union_v1 coerce c args) p (dump_lv c built v) = Ok v.
 Proof. exact dispatch_v1. Qed.
 Print Assumptions C13_dispatch_v1.
 
@@ -30,7 +34,7 @@ Print Assumptions C13_dispatch_v1.
    with a quote and a backslash, scalars mixed in; an instance of the middle class inside list[dict[str, .]] *)
 Definition ex_conf : uconf := {| u_tag_key := S "ty'p\e"; u_auto := true |}.
 Definition ex_m (cid : N) (name : string) (tag : option pstr) : member :=
-  {| m_cid := cid; m_name := S name; m_tag := tag; m_fields := [S "a"; S "b"]; m_defaults := [(S "b", JStr (S "dflt"))]; m_catchall := true; m_raise := false |}.
+  {| m_cid := cid; m_name := S name; m_tag := tag; m_auto := true; m_fields := [S "a"; S "b"]; m_defaults := [(S "b", JStr (S "dflt"))]; m_catchall := true; m_raise := false |}.
 Definition ex_args : list arg :=
   [AData (ex_m 0 "K0" None); AScalar SInt; AData (ex_m 1 "K1" (Some (S "t'1"))); ANone; AData (ex_m 2 "K2" None); AScalar SStr].
 Definition ex_val : lv :=
@@ -53,12 +57,13 @@ Proof.
   injection H1 as <-; injection H2 as <-; try reflexivity; vm_compute in Hn; discriminate Hn.
 Qed.
 
-Lemma ex_shaped : shaped ex_conf (leaf_v0 ex_conf false ex_args) (PList (PDict PHere)) ex_val.
+Lemma ex_shaped : shaped ex_conf false (leaf_v0 ex_conf false false ex_args) (PList (PDict PHere)) ex_val.
 Proof.
   apply sh_list. constructor; [|constructor; [|constructor]].
   - apply sh_dict. constructor; [|constructor]. cbn [snd].
     apply sh_here. eapply leaf_v0_inst with (t := S "t'1").
     + cbn. tauto.
+    + vm_compute. reflexivity.
     + vm_compute. reflexivity.
     + split; [reflexivity|]. cbn. repeat constructor; cbn; intuition discriminate.
     + vm_compute. reflexivity.
@@ -67,8 +72,8 @@ Proof.
 Qed.
 
 Example C13_dispatch_v0_ex :
-  load_pos (load_union_v0 ex_conf false ex_args) (PList (PDict PHere)) (dump_lv ex_conf ex_val) = Ok ex_val.
-Proof. exact (C13_dispatch_v0 ex_conf false ex_args ex_tags_injective _ _ ex_shaped). Qed.
+  load_pos (load_union_v0 ex_conf false ex_args) (PList (PDict PHere)) (dump_lv ex_conf false ex_val) = Ok ex_val.
+Proof. exact (C13_dispatch_v0 ex_conf false false ex_args ex_tags_injective _ _ ex_shaped). Qed.
 
 (* Order of the Union arguments is irrelevant (default engine: for EVERY input; the list of valid tags in the
    error is the same up to order). *)
@@ -123,14 +128,15 @@ Print Assumptions C13_scalars_do_not_capture_dicts.
 (* The tag key is never reported as unknown nor captured: a member that raises on unknown keys AND has a
    CatchAll field still loads its own dump (explicit tag, or auto tag already assigned: default engine; always: v1). *)
 Theorem C13_tag_not_unknown :
-  forall coerce c pre args m vals t,
+  forall coerce c pre built args m vals t,
   tags_injective c args -> names_injective c args -> In (AData m) args -> eff_tag c m = Some t ->
+  dump_tag c built m = Some t ->
   conforming m vals -> is_field (u_tag_key c) m = false ->
   (whitelisted_v0 c pre m = true ->
-   load_union_v0 c pre args (dump_member c m vals) = Ok (LInst m vals [])) /\
-  load_union_v1 coerce c args (dump_member c m vals) = Ok (LInst m vals []).
+   load_union_v0 c pre args (dump_member c built m vals) = Ok (LInst m vals [])) /\
+  load_union_v1 coerce c args (dump_member c built m vals) = Ok (LInst m vals []).
 Proof.
-  intros coerce c pre args m vals t Inj NInj Hin Ht Hc Hk. split.
+  intros coerce c pre built args m vals t Inj NInj Hin Ht Hd Hc Hk. split.
   - intros W. apply load_union_v0_dumped with (t := t); auto. now left.
   - now apply load_union_v1_dumped with (t := t).
 Qed.
@@ -144,12 +150,12 @@ Proof. split; vm_compute; reflexivity. Qed.
 
 (* F9: two members with the same __name__ and auto tags: the first one's dump loads as the second (both engines). *)
 Definition dup (cid : N) (fields : list pstr) : member :=
-  {| m_cid := cid; m_name := S "Dup"; m_tag := None; m_fields := fields; m_defaults := []; m_catchall := false; m_raise := false |}.
+  {| m_cid := cid; m_name := S "Dup"; m_tag := None; m_auto := false; m_fields := fields; m_defaults := []; m_catchall := false; m_raise := false |}.
 Theorem C13_equal_names_refuted :
   exists c args m vals,
     In (AData m) args /\ conforming m vals /\ ~ tags_injective c args /\
-    load_union_v0 c true args (dump_member c m vals) <> Ok (LInst m vals []) /\
-    load_union_v1 no_coerce c args (dump_member c m vals) <> Ok (LInst m vals []).
+    load_union_v0 c true args (dump_member c false m vals) <> Ok (LInst m vals []) /\
+    load_union_v1 no_coerce c args (dump_member c false m vals) <> Ok (LInst m vals []).
 Proof.
   exists {| u_tag_key := S "__tag__"; u_auto := true |},
          [AData (dup 0 [S "a"]); AData (dup 1 [S "a"])], (dup 0 [S "a"]), [(S "a", JInt 1)].
@@ -165,12 +171,12 @@ Print Assumptions C13_equal_names_refuted.
 
 (* F9, v1 only: same __name__ but DISTINCT explicit tags (tags_injective holds): still loaded as the other class. *)
 Definition dupt (cid : N) (tag : string) : member :=
-  {| m_cid := cid; m_name := S "Dup"; m_tag := Some (S tag); m_fields := [S "a"]; m_defaults := []; m_catchall := false; m_raise := false |}.
+  {| m_cid := cid; m_name := S "Dup"; m_tag := Some (S tag); m_auto := false; m_fields := [S "a"]; m_defaults := []; m_catchall := false; m_raise := false |}.
 Theorem C13_equal_names_v1_refuted :
   exists c args m vals,
     In (AData m) args /\ conforming m vals /\
-    load_union_v0 c false args (dump_member c m vals) = Ok (LInst m vals []) /\
-    load_union_v1 no_coerce c args (dump_member c m vals) <> Ok (LInst m vals []).
+    load_union_v0 c false args (dump_member c false m vals) = Ok (LInst m vals []) /\
+    load_union_v1 no_coerce c args (dump_member c false m vals) <> Ok (LInst m vals []).
 Proof.
   exists {| u_tag_key := S "__tag__"; u_auto := false |},
          [AData (dupt 0 "t0"); AData (dupt 1 "t1")], (dupt 0 "t0"), [(S "a", JInt 1)].
@@ -182,13 +188,29 @@ Print Assumptions C13_equal_names_v1_refuted.
 (* F23: default engine, auto tag, first load in the interpreter (pre = false): the tag key is captured by the
    member's CatchAll field / reported as unknown; after a dump (pre = true) the same load succeeds. *)
 Definition f23_m (raise_ : bool) : member :=
-  {| m_cid := 0; m_name := S "K0"; m_tag := None; m_fields := [S "a"]; m_defaults := []; m_catchall := negb raise_; m_raise := raise_ |}.
+  {| m_cid := 0; m_name := S "K0"; m_tag := None; m_auto := false; m_fields := [S "a"]; m_defaults := []; m_catchall := negb raise_; m_raise := raise_ |}.
 Theorem C13_tag_key_before_first_dump_refuted :
   let c := {| u_tag_key := S "type"; u_auto := true |} in
   let vals := [(S "a", JInt 1)] in
-  (forall r, load_union_v0 c true [AData (f23_m r)] (dump_member c (f23_m r) vals) = Ok (LInst (f23_m r) vals [])) /\
-  load_union_v0 c false [AData (f23_m false)] (dump_member c (f23_m false) vals)
+  (forall r, load_union_v0 c true [AData (f23_m r)] (dump_member c false (f23_m r) vals) = Ok (LInst (f23_m r) vals [])) /\
+  load_union_v0 c false [AData (f23_m false)] (dump_member c false (f23_m false) vals)
     = Ok (LInst (f23_m false) vals [(S "type", JStr (S "K0"))]) /\
-  load_union_v0 c false [AData (f23_m true)] (dump_member c (f23_m true) vals) = Err (EUnknownKey 0 (S "type")).
+  load_union_v0 c false [AData (f23_m true)] (dump_member c false (f23_m true) vals) = Err (EUnknownKey 0 (S "type")).
 Proof. cbn zeta. split; [intros []; vm_compute; reflexivity|]. split; vm_compute; reflexivity. Qed.
 Print Assumptions C13_tag_key_before_first_dump_refuted.
+
+(* F62: a member whose tag comes only from ITS OWN auto_assign_tags (no explicit tag, container flag off): the loader
+   dispatches on the class name, but the dumper emits no tag unless the container's Union parser was built before the
+   member's dump function (built = true: an earlier load through the container) — load(dump(k)) is a ParseError. *)
+Definition f62_m : member :=
+  {| m_cid := 0; m_name := S "K0"; m_tag := None; m_auto := true; m_fields := [S "a"]; m_defaults := [];
+     m_catchall := false; m_raise := false |}.
+Theorem C13_member_auto_tag_refuted :
+  let c := {| u_tag_key := S "__tag__"; u_auto := false |} in
+  let vals := [(S "a", JInt 1)] in
+  eff_tag c f62_m = Some (S "K0") /\
+  load_union_v0 c false [AData f62_m] (dump_member c false f62_m vals) = Err ENoMatch /\
+  load_union_v1 no_coerce c [AData f62_m] (dump_member c false f62_m vals) = Err ENoMatch /\
+  load_union_v0 c false [AData f62_m] (dump_member c true f62_m vals) = Ok (LInst f62_m vals []).
+Proof. cbn zeta. repeat split; vm_compute; reflexivity. Qed.
+Print Assumptions C13_member_auto_tag_refuted.
